@@ -153,6 +153,7 @@ func main() {
 		noEvid  = flag.Bool("no-evidence", false, "do not write evidence (used for variants)")
 		jsonOut = flag.Bool("json", false, "print obligations as JSON on stdout")
 		mutOnly = flag.String("mutant", "", "run only the named mutant (thorough self-audit debugging)")
+		canon   = flag.String("canon", "auto", "canonical view (helper inlining): auto = only when the plain evaluation is not clean | off | force")
 	)
 	flag.Parse()
 	start := time.Now()
@@ -162,6 +163,30 @@ func main() {
 			os.Exit(2)
 		}
 	}()
+	noCanon, forceCanon = *canon == "off", *canon == "force"
+	if strings.HasPrefix(*dump, "canon") {
+		cr, err := canonicalise(LoadOptions{Repo: *repo})
+		if err != nil {
+			fmt.Fprintln(os.Stderr, "canonicalise:", err)
+			os.Exit(2)
+		}
+		fmt.Println("inlined:")
+		for _, n := range cr.Inlined {
+			fmt.Println("  ", n)
+		}
+		fmt.Println("not inlined (candidate helpers the inliner declined):")
+		for _, n := range cr.Skipped {
+			fmt.Println("  ", n)
+		}
+		if i := strings.Index(*dump, ":"); i >= 0 {
+			dir := (*dump)[i+1:]
+			os.MkdirAll(dir, 0o755)
+			for f, b := range cr.Overlay {
+				os.WriteFile(filepath.Join(dir, filepath.Base(f)), b, 0o644)
+			}
+		}
+		return
+	}
 	if *dump != "" {
 		p, err := Load(LoadOptions{Repo: *repo})
 		if err != nil {
@@ -182,6 +207,7 @@ func main() {
 		fmt.Fprintln(os.Stderr, "known_findings.json:", err)
 		os.Exit(2)
 	}
+	knownForCanon = known
 	seed := 0
 	if s := os.Getenv("VERIF_SEED"); s != "" {
 		seed, _ = strconv.Atoi(s)
@@ -330,17 +356,89 @@ type runResult struct {
 	Note  []string
 	Err   error
 	Std   string
+	Canon []string // helpers inlined when the verdict was obtained on the canonical view
 }
 
-func runProperty(pr *Property, opt LoadOptions) (res runResult) {
+// runProperty evaluates the rules on the tree as it is and, only if that evaluation is not clean,
+// once more on the canonical view (non-anchor private helpers inlined, see inline.go). The canonical
+// view is semantically equivalent, so a clean evaluation of it is a verdict about the tree itself.
+func runProperty(pr *Property, opt LoadOptions) runResult {
+	if forceCanon {
+		cr, err := canonicalise(opt)
+		if err != nil {
+			return runResult{Err: err}
+		}
+		if cr.Prog == nil {
+			return runPlain(pr, opt, nil)
+		}
+		r := runPlain(pr, opt, cr.Prog)
+		r.Canon = cr.Inlined
+		r.Note = append(r.Note, "forced canonical view; inlined: "+strings.Join(cr.Inlined, ", "))
+		return r
+	}
+	res := runPlain(pr, opt, nil)
+	if res.Err != nil || noCanon || !res.unclean(pr.ID) {
+		return res
+	}
+	cr, err := canonicalise(opt)
+	if err != nil || cr == nil || cr.Prog == nil {
+		if err != nil {
+			res.Note = append(res.Note, "canonical view not available: "+firstLine(err.Error()))
+		}
+		return res
+	}
+	res2 := runPlain(pr, opt, cr.Prog)
+	if res2.Err == nil && !res2.unclean(pr.ID) {
+		res2.Note = append(res2.Note, "evaluated on the canonical view (inlined private helpers: "+strings.Join(cr.Inlined, ", ")+"); the plain view had "+fmt.Sprint(res.countUnclean(pr.ID))+" unrecognised/violated obligations caused by the helper boundaries")
+		res2.Canon = cr.Inlined
+		return res2
+	}
+	res.Note = append(res.Note, "canonical view (inlined: "+strings.Join(cr.Inlined, ", ")+") does not satisfy the rules either")
+	return res
+}
+
+var noCanon, forceCanon bool
+var knownForCanon *knownFile
+
+func (r runResult) countUnclean(prop string) int {
+	n := 0
+	for _, o := range r.Obs {
+		switch o.Verdict {
+		case "violated":
+			if knownForCanon == nil || findKnown(knownForCanon, prop, o.Key) == nil {
+				n++
+			}
+		case "undecided":
+			n++
+		}
+	}
+	counts := map[string]int{}
+	for _, o := range r.Obs {
+		counts[o.Rule]++
+	}
+	for rule, min := range r.Min {
+		if counts[rule] < min {
+			n++
+		}
+	}
+	return n
+}
+
+func (r runResult) unclean(prop string) bool { return r.countUnclean(prop) > 0 }
+
+func runPlain(pr *Property, opt LoadOptions, pre *Prog) (res runResult) {
 	defer func() {
 		if r := recover(); r != nil {
 			res.Err = fmt.Errorf("panic in analyser: %v\n%s", r, debug.Stack())
 		}
 	}()
-	p, err := Load(opt)
-	if err != nil {
-		return runResult{Err: err}
+	p := pre
+	if p == nil {
+		var err error
+		p, err = Load(opt)
+		if err != nil {
+			return runResult{Err: err}
+		}
 	}
 	if len(p.Pkgs) < 5 {
 		return runResult{Err: fmt.Errorf("only %d module packages loaded (expected >= 5)", len(p.Pkgs))}
